@@ -199,14 +199,16 @@ impl Atom {
 }
 
 fn gen_rows(rng: &mut Rng, thorough: bool) -> Vec<Vec<M>> {
-    let sizes: &[usize] = if thorough { &[0, 1, 2, 3, 4, 5, 7, 8, 9, 15, 16, 17, 63, 64, 65, 300, 1030] } else { &[0, 1, 2, 3, 4, 5, 7, 8, 9, 16, 17, 33, 65] };
+    let sizes: &[usize] = if thorough { &[0, 1, 2, 3, 4, 5, 7, 8, 9, 15, 16, 17, 63, 64, 65, 300, 1030] } else { &[0, 1, 2, 3, 4, 5, 7, 8, 9, 16, 17, 33, 65, 130] };
     let n = *rng.pick(sizes);
     let null_pct = *rng.pick(&[0u64, 0, 10, 30, 100]);
     let null_col = rng.usize(5); // one column gets the chosen density, the others 10 %
     let big = rng.chance(1, 6);
+    // sometimes the chosen column starts with a run of NULLs (type sampling looks at leading rows)
+    let lead_nulls = if rng.chance(1, 3) { *rng.pick(&[1usize, 8, 100, 101, 120]) } else { 0 };
     (0..n)
         .map(|k| {
-            let mut nul = |rng: &mut Rng, col: usize| rng.chance(if col == null_col { null_pct } else { 8 }, 100);
+            let mut nul = |rng: &mut Rng, col: usize| (col == null_col && k < lead_nulls) || rng.chance(if col == null_col { if lead_nulls > 0 { 10 } else { null_pct } } else { 8 }, 100);
             vec![
                 M::Int(k as i64 + 1),
                 if nul(rng, 1) { M::Null } else { M::Int(if big { rng.range(-1_000_000_000, 1_000_000_000) } else { rng.range(-5, 5) }) },
